@@ -71,6 +71,8 @@ class ExprMixin:
             sf = self.reg.spec_funcs.get(name)
             if sf is not None:
                 return FuncVal("specfunc", name=name)
+            if name in self.reg.spec_rec:
+                return FuncVal("specrec", name=name)
         mod = fr.module
         if mod is not None:
             r = self.repo.resolve_global(mod, name)
@@ -759,11 +761,28 @@ class ExprMixin:
                     return k(FuncVal("repo", info=m), st)
                 if m.is_classmethod:
                     return k(FuncVal("repo", info=m, self_val=self.type_of(obj)), st)
+                ov = self.overrides_below(ci, attr)
+                if ov and not st.frame.spec:
+                    return k(FuncVal("virtual", info=m, self_val=obj, name=attr, extra=ov), st)
                 return k(FuncVal("repo", info=m, self_val=obj), st)
             ca = self.repo.find_attr(ci, attr)
             if ca is not None:
                 return self.eval_class_attr(ca[0], ca[1], st, k)
         raise Unsupported("attribute %r of object of class %s (no field model, method or class attribute)" % (attr, cn))
+
+    def overrides_below(self, ci, name):
+        """repo classes strictly below ci that define `name` themselves (most specific first)"""
+        key = (ci.name, name)
+        cache = self.__dict__.setdefault("_ov_cache", {})
+        if key not in cache:
+            out = []
+            for lst in self.repo.classes_by_name.values():
+                for c in lst:
+                    if c is not ci and ci in self.repo.mro(c) and name in c.methods and c not in out:
+                        out.append(c)
+            out.sort(key=lambda c: -len(self.repo.mro(c)))
+            cache[key] = out
+        return cache[key]
 
     def eval_class_attr(self, ci, expr, st, k):
         fr = type(st.frame)("<class %s>" % ci.name, ci.module, defcls=ci)
